@@ -14,3 +14,5 @@ UNITS = [VIO.unit_writer_init(), VIO.unit_writer_write_row(), VIO.unit_padded_fi
 UNITS += [VIO.unit_writer_write_rows(), VIO.unit_writer_close()]
 UNITS += [RW.unit_fixed_row_writer_init(), RW.unit_delimited_row_writer_init(), RW.unit_row_writer_close(), RW.unit_row_writer_write_rows()]
 UNITS += [RD.unit_delimited_rows().also("C14"), FX.unit_fixed_rows().also("C14"), VIO.unit_raw_rows()]
+from props import _groups as _G
+UNITS = _G.with_groups(PROPERTY, UNITS, _G.WRITERS, _G.VALIDATION, _G.READERS, _G.CHECKS)
